@@ -310,14 +310,21 @@ def run_part(ctx, seconds):
     summary = ctx.extra.setdefault('emit_race_scenarios', {})
     limit = 150 if ctx.tier == 'quick' else 5000
     k = 0
-    for i, racers in enumerate(jobs):
-        if ctx.nshards > 1 and i % ctx.nshards != ctx.shard:
-            continue
-        if time.time() > t_end or ctx.too_many_violations():
-            break
-        n, complete = explore(ctx, racers, limit,
-                              bound=None if len(racers) == 1 else 3)
-        summary['+'.join(racers)] = {'schedules': n, 'complete': complete}
+    # iterative context bounding first (one actor parked at any one of its
+    # yield points while the others run on: the atomicity windows), for every
+    # scenario; then the deeper searches
+    for bound in (1, 2, None):
+        for i, racers in enumerate(jobs):
+            if ctx.nshards > 1 and i % ctx.nshards != ctx.shard:
+                continue
+            if time.time() > t_end or ctx.too_many_violations():
+                break
+            b = bound if bound is not None else (
+                None if len(racers) == 1 else 3)
+            n, complete = explore(ctx, racers, limit, bound=b)
+            summary.setdefault('+'.join(racers), {})[
+                'unbounded' if b is None else 'at_most_%d_preemptions' % b] \
+                = {'schedules': n, 'complete': complete}
     for racers in (['sdisc', 'enter_self'], ['sdisc', 'enter_self_other']):
         if time.time() > t_end + 5 or ctx.too_many_violations():
             break
